@@ -670,3 +670,27 @@ macro_rules! eol_harness {
 eol_harness!(c03_eol_pad0, 44, 4, 0);
 eol_harness!(c03_eol_pad1, 44, 4, 1);
 eol_harness!(c03_eol_pad2, 48, 8, 2);
+
+/// IPv6 extension-header length (olen) on every 48-byte packet: 0 when TCP follows directly,
+/// 8 for a fragment header, (hdr_ext_len + 1) * 8 otherwise (as far as it fits the u8 field)
+#[kani::proof]
+#[kani::unwind(4)]
+pub fn c03_ipv6_olen() {
+    let mut buf: [u8; 48] = kani::any();
+    buf[0] = 0x60 | (buf[0] & 0x0f);
+    let p = Ipv6Packet::new(&buf).unwrap();
+    let got = IpOptions::calculate_ipv6_length(&p);
+    let next = buf[6];
+    let plen = ((buf[4] as usize) << 8) | buf[5] as usize; // payload length field
+    kani::cover!(next == 44, "fragment header");
+    if next == 6 {
+        assert!(got == 0, "C03 olen 0 when TCP follows the IPv6 header");
+    } else if plen >= 8 && next == 44 {
+        assert!(got == 8, "C03 olen 8 for a fragment extension header");
+    } else if plen >= 8 {
+        let want = (buf[41] as usize + 1) * 8;
+        if want <= 255 {
+            assert!(got as usize == want, "C03 olen == (hdr ext len + 1) * 8 for other extension headers");
+        }
+    }
+}
